@@ -197,4 +197,13 @@ PROPS = {
                "MemorySanitizer is not used (false positive in is_socket/fstat on the unchanged tree); the recv side is not interposed in this build, so cases keep the sending handle alive while receiving to stay clear of the kernel's end-of-file race.",
                "cases = union of the C01/C04/C05/C13/C15 case types + zero/odd-length platform regions + truncated transfers; non-trivial = the source property's rule (length within +/-16 of a boundary, >=32 attachments, odd/zero-length region, retry-shrunk fragment, truncated transfer); distinct = distinct (params, canonical JSON)"),
     ),
+    "C06": dict(
+        jobs=lambda tier: [dict(build="os", params={"sndbuf": "4096", "cases": "3000" if tier == "quick" else "60000"}, shards=8 if tier == "quick" else 16),
+                           dict(build="inproc", params={"sndbuf": "4096", "cases": "1000" if tier == "quick" else "20000"}, shards=4 if tier == "quick" else 8)],
+        meta=M("exploration",
+               "stateful property testing of receiver sets: deterministic generated interleavings of send/add/drop/select and free-running sender threads, EINTR injected at the interposed epoll_wait, history invariant as oracle",
+               "Sets of 1..24 (quick) / 1..64 (thorough) members with per-member scripts of small and multi-packet messages, members added before, between and after their traffic, senders dropped early or at the end. Regime D interleaves all actions on one thread in a generated order and calls select only while the model says an event of an added member is pending (so a call that does not return is a lost event; more ready members than the event buffer, traffic queued before add, and closure together with data are constructed on purpose). Regime F runs 1..8 sender threads against the selecting thread. EINTR is injected into generated epoll_wait calls. The concatenated select results must give every member its messages once, in order, under the id add returned, and exactly one ChannelClosed after the last message and after the sender drop began; ids of live members are distinct.",
+               "Kernel scheduling inside epoll/mio is not controlled in regime F (repeated sampling with jitter); blocked = asleep in one syscall at two samples, or spinning without returning (CPU time accrues).",
+               "cases = (member scripts, add points, drop points, thread assignment, regime, shuffle, select cadence, EINTR mask); non-trivial = more than 10 members ready at one select, or a multi-packet message beside small ones, or an add after traffic, or >=1 injected EINTR; distinct = distinct (build, canonical JSON)"),
+    ),
 }
